@@ -149,6 +149,7 @@ def run(ctx):
         Profile(max_depth=4, max_arms=3, pred_depth=3, hard_literals=0.7, p_tuple_ident=0.3, p_nested_tuple=0.2),
         Profile(max_depth=2, max_arms=5, pred_depth=2, p_shared=0.8, splitters=(1, 4)),
         Profile(max_depth=3, max_arms=3, pred_depth=2, splitters=(0, 0)),
+        Profile(max_depth=4, max_arms=3, pred_depth=1, p_leaf_cond=0.3, p_repeat_return=0.5),
     ]
     for i in range(n):
         gp = ProgGen(rnd, rnd.choice(profiles)).program()
